@@ -17,7 +17,8 @@
     overflow into the should-be-on-freelist bit). *)
 From Coq Require Import ZArith List String Lia.
 From LV Require Import Base.Conc Base.Events Model.FreeList Model.FreeListTagged Proofs.FreeListBase Proofs.FreeListThm
-  Proofs.FreeListTaggedSafe Proofs.FreeListTaggedThm Model.FreeListCached Proofs.FreeListCachedTaggedThm Proofs.FreeListCachedFLThm.
+  Proofs.FreeListTaggedSafe Proofs.FreeListTaggedThm Model.FreeListCached Proofs.FreeListCachedTaggedThm Proofs.FreeListCachedFLThm
+  Proofs.FreeListCachedDrain Proofs.FreeListCachedDrainThm.
 Import ListNotations.
 Local Open Scope Z_scope.
 Local Open Scope string_scope.
@@ -172,50 +173,24 @@ Theorem C21_cached_fl_unique_holder :
 Proof. intros fuel k ths c Hwf HN. exact (cached_fl_unique_holder fuel k ths Hwf HN c). Qed.
 Print Assumptions C21_cached_fl_unique_holder.
 
-(** sequential execution of a wrapper program, and the drain by repeated get() of one thread with slot s *)
-Fixpoint csolo {G0 R} (p : cprog G0 R) (g : CG G0) : CG G0 * R :=
-  match p with
-  | Ret r => (g, r)
-  | Emit _ k => csolo k g
-  | Act f k => let '(g', v, _) := f g in csolo (k v) g'
-  end.
-Fixpoint cdrain {G0} (get0 : nat -> Conc.prog G0 V ev (option nat)) (fuel s c : nat) (g : CG G0) : list nat :=
-  match c with
-  | O => []
-  | S c' => match csolo (cget G0 get0 fuel s) g with
-            | (g', Some (S m)) => S m :: cdrain get0 fuel s c' g'
-            | _ => []
-            end
-  end.
-
-(** full statement of "no loss" for the cached list (quiescent: backing list + cache slots = put minus taken,
-    and repeated get() of a single thread returns exactly those nodes).  PROVED: the first part
-    ([C21_cached_fl_no_loss_partial]).  NOT PROVED: the sequential drain through cget (own slot, backing
-    list, scan of the four slots, backing list); it is exercised on the real code by the drain monitor of
-    harness/C21/main.cpp on every finished case. *)
-Definition C21_cached_fl_no_loss_statement : Prop :=
-  forall (fuel k : nat) (ths : list (list op * list nat * nat)) c,
-    cwf_init k ths -> Z.of_nat (List.length ths + CACHE_SIZE) + 1 < FLAG ->
-    Conc.reach (cinit_cfg G put get init_range fuel k ths) c -> quiescent (Conc.trace c) ->
-    let g := Conc.shared c in
-    exists own,
-      mon_run (own_init (cths ths)) (Conc.trace c) = Some own /\
-      forall s f cn, (s < CACHE_SIZE)%nat -> (List.length ths + k < cn)%nat ->
-        NoDup (cdrain get (S f) s cn g) /\
-        forall n, In n (cdrain get (S f) s cn g) <-> valid_init k (cths ths) n = true /\ own n = None.
-
-Theorem C21_cached_fl_no_loss_partial :
+(** in every quiescent reachable configuration, backing list + cache slots hold exactly the existing nodes that
+    nobody holds, and a single thread (any slot s) calling the wrapper's get() repeatedly obtains exactly those
+    nodes, each once ([cdrain]: LV.Proofs.FreeListCachedDrain, sequential execution [gsolo] of [cget]) *)
+Theorem C21_cached_fl_no_loss :
   forall (fuel k : nat) (ths : list (list op * list nat * nat)) c,
     cwf_init k ths -> Z.of_nat (List.length ths + CACHE_SIZE) + 1 < FLAG ->
     Conc.reach (cinit_cfg G put get init_range fuel k ths) c -> quiescent (Conc.trace c) ->
     let g := Conc.shared c in
     exists own l,
       mon_run (own_init (cths ths)) (Conc.trace c) = Some own /\
-      chain (next (back G g)) (head (back G g)) l /\ NoDup l /\
+      seq_ok (back G g) l /\
       (forall n, (In n l \/ (n <> O /\ exists i, (i < CACHE_SIZE)%nat /\ cache G g i = n))
-                 <-> valid_init k (cths ths) n = true /\ own n = None).
-Proof. intros fuel k ths c Hwf HN. exact (cached_fl_no_loss fuel k ths Hwf HN c). Qed.
-Print Assumptions C21_cached_fl_no_loss_partial.
+                 <-> valid_init k (cths ths) n = true /\ own n = None) /\
+      forall s f cn, (s < CACHE_SIZE)%nat -> (List.length l + CACHE_SIZE < cn)%nat ->
+        NoDup (cdrain G get (S f) s cn g) /\
+        forall n, In n (cdrain G get (S f) s cn g) <-> valid_init k (cths ths) n = true /\ own n = None.
+Proof. intros fuel k ths c Hwf HN. exact (cached_fl_no_loss_full fuel k ths Hwf HN c). Qed.
+Print Assumptions C21_cached_fl_no_loss.
 
 (** the same three for the cache in front of TaggedFreeList (hypothesis: the backing list's tag does not wrap;
     its initial value is [ctag0 k] = number of nodes the set-up pushed onto the backing list) *)
@@ -244,20 +219,7 @@ Theorem C21_cached_tagged_unique_holder :
 Proof. intros fuel k ths c Hwf. exact (cached_tagged_unique_holder fuel k ths Hwf c). Qed.
 Print Assumptions C21_cached_tagged_unique_holder.
 
-Definition C21_cached_tagged_no_loss_statement : Prop :=
-  forall (fuel k : nat) (ths : list (list op * list nat * nat)) c,
-    cwf_init k ths ->
-    Conc.reach (cinit_cfg TG tput tget tinit_range fuel k ths) c -> nowrap (ctag0 k) (Conc.trace c) ->
-    quiescent (Conc.trace c) ->
-    let g := Conc.shared c in
-    exists own,
-      mon_run (own_init (cths ths)) (Conc.trace c) = Some own /\
-      forall s f cn, (s < CACHE_SIZE)%nat -> (List.length ths + k < cn)%nat ->
-        NoDup (cdrain tget (S f) s cn g) /\
-        forall n, In n (cdrain tget (S f) s cn g) <-> valid_init k (cths ths) n = true /\ own n = None.
-
-(** PROVED part of [C21_cached_tagged_no_loss_statement]; the sequential drain through cget is not proved *)
-Theorem C21_cached_tagged_no_loss_partial :
+Theorem C21_cached_tagged_no_loss :
   forall (fuel k : nat) (ths : list (list op * list nat * nat)) c,
     cwf_init k ths ->
     Conc.reach (cinit_cfg TG tput tget tinit_range fuel k ths) c -> nowrap (ctag0 k) (Conc.trace c) ->
@@ -267,20 +229,23 @@ Theorem C21_cached_tagged_no_loss_partial :
       mon_run (own_init (cths ths)) (Conc.trace c) = Some own /\
       tseq_ok (back TG g) l /\
       (forall n, (In n l \/ (n <> O /\ exists i, (i < CACHE_SIZE)%nat /\ cache TG g i = n))
-                 <-> valid_init k (cths ths) n = true /\ own n = None).
-Proof. intros fuel k ths c Hwf. exact (cached_tagged_no_loss fuel k ths Hwf c). Qed.
-Print Assumptions C21_cached_tagged_no_loss_partial.
+                 <-> valid_init k (cths ths) n = true /\ own n = None) /\
+      forall s f cn, (s < CACHE_SIZE)%nat -> (List.length l + CACHE_SIZE < cn)%nat ->
+        NoDup (cdrain TG tget (S f) s cn g) /\
+        forall n, In n (cdrain TG tget (S f) s cn g) <-> valid_init k (cths ths) n = true /\ own n = None.
+Proof. intros fuel k ths c Hwf. exact (cached_tagged_no_loss_full fuel k ths Hwf c). Qed.
+Print Assumptions C21_cached_tagged_no_loss.
 
 (** non-vacuity: two threads sharing cache slot 1, nodes 1 and 2 held initially; the run ends quiescent with
     three successful get()s, and the sequential drain of the final state returns the node that is left *)
 Example C21_cached_nonvacuous :
-  let ths := [([OPut 0; OGet; OPut 0], [1%nat], 1%nat); ([OPut 0; OGet; OGet], [2%nat], 1%nat)] in
+  let ths := [([OPut 0; OGet; OPut 0], [1%nat], 1%nat); ([OPut 0; OGet], [2%nat], 1%nat)] in
   cwf_init 0 ths /\ Z.of_nat (List.length ths + CACHE_SIZE) + 1 < FLAG /\
   let r := Conc.run 1000 0 [0;0;1;1;1;0;0;1;1;0;0;0;1;1;1;1;0;0;1;0;1]%nat (cinit_cfg G put get init_range 50 0 ths) in
   snd r = true /\
   forallb (fun t => Z.eqb (opens t (Conc.trace (fst r))) 0) [0;1]%nat = true /\
-  List.length (filter (fun e => match e with EvCli "ret_get" [z] => Z.leb 0 z | _ => false end) (map snd (Conc.trace (fst r)))) = 3%nat /\
-  List.length (cdrain get 5 0 5 (Conc.shared (fst r))) = 1%nat.
+  List.length (filter (fun e => match e with EvCli "ret_get" [z] => Z.leb 0 z | _ => false end) (map snd (Conc.trace (fst r)))) = 2%nat /\
+  List.length (cdrain G get 5 0 5 (Conc.shared (fst r))) = 1%nat.
 Proof.
   split; [|split; [reflexivity|]].
   - split; [split|].
